@@ -218,7 +218,9 @@ def currents(draw, dspec, current_units, kinds=("dict", "callable"), allow_zero=
     mult = {t["name"]: v for t, v in zip(terms, m + [last])}
     cs = dict(kind=draw(st.sampled_from(list(kinds))), quantum=quantum, mult=mult)
     if cs["kind"] == "callable":
-        cs["profile"] = draw(st.sampled_from(["ramp", "step", "sine"]))
+        cs["profile"] = draw(st.sampled_from(["ramp", "step", "sine", "pulse"]))
+        # switching time as a fraction of the run (builders that know solve_time use it), with an absolute fallback
+        cs["t0_frac"] = draw(rf(0.1, 0.6))
         cs["t0"] = draw(rf(0.02, 2.0))
     return cs
 
